@@ -6,54 +6,79 @@ decided.  Decided are four structural clauses, each a necessary condition:
 R04a  exception flow of the repository's own error types.  Every ``raise`` of
       ``SQLParseError`` / ``SQLLexError`` / ``SQLTemplaterError`` /
       ``SQLFluffSkipFile`` (core + plugins, 30+ sites) is followed over the
-      supplemented call graph (``sa/errflow.py``: decorator wrappers, properties,
-      closures, deferred ``functools.partial`` objects, class aliases) to the
+      supplemented call graph (``sa/errflow.py``: decorator wrappers cloned per
+      decorated function, property getters, closures, deferred
+      ``functools.partial`` objects, class aliases / unions, ``cls(..)``
+      constructors, the three-argument ``Matchable.match`` protocol) to the
       public entry points — every public method of ``Linter``, every public
       function of ``api/simple.py``, every ``@cli.command``.  On every chain the
       exception must be *absorbed by a converting handler*:
         - converts: the caught object (or a new repo error built in the handler)
-          is put into a list that the function returns (the violations list);
+          is appended to / returned in a list that the function returns (the
+          violations list), directly or through a helper that receives both;
         - translates: every path through the handler raises a new repo error type;
         - a reviewed *verdict* handler (table ``VERDICT_HANDLERS``);
-        - for ``SQLFluffSkipFile`` any covering handler (the accounting of skips
-          is C34's R34c, not repeated here).
-      Reported: ``escapes`` (reaches an entry point with no handler at all:
-      the caller of the API gets a traceback), ``degraded`` (the only handler is a
-      log-only catch-all such as the runners' funnel: the file's result is lost
-      and no TMP/LXR/PRS violation is reported), ``swallowed`` (a narrow handler
-      drops it).  Entry points that raise by contract are listed in
-      ``CONTRACT`` (pair of entry and type, with the reason); chains that no
-      execution follows are listed in ``CUTS`` (caller, callee, type, reason).
+        - ``SQLFluffSkipFile`` is a per-file verdict, not a violation: its handler
+          must leave the file without a result (count it, forward it, go on to the
+          next file, end the command).  Falling through — so that the function
+          returns a result object with neither a tree nor a violation — is reported:
+          consumers read "no violation" as "parsed" (``api.parse`` asserts a
+          variant, the ``render`` command indexes the first variant).
+      Reported: ``escapes`` (reaches an entry point with no handler at all: the
+      caller gets a traceback), ``degraded`` (the only handler is a log-only
+      catch-all such as the runners' funnel: the file's result is lost and no
+      TMP/LXR/PRS violation is reported), ``swallowed`` (a handler drops it).
+      A handler that re-raises the caught object (also conditionally, also under
+      ``isinstance(e, K)``) is transparent.  Entry points that raise by contract
+      are listed in ``CONTRACT``; chains that no execution follows in ``CUTS``.
+      Alarms are limited to chains whose raise site and every frame lie under
+      ``src/sqlfluff``: plugin code (dbt, sqlmesh) cannot be exercised in this
+      sandbox, its unhandled chains are printed as notes and counted
+      (``R04a.plugin_chains_unhandled``).
+      Non-vacuity: each of SQLParseError / SQLLexError / SQLTemplaterError must be
+      *seen* to reach a converting handler of the linter; if not, and nothing is
+      reported for the type, the flow was lost -> analysis error.
 R04b  fix sinks.  Every call of ``LintedFile.fix_string()`` (whose first
       statements assert a templated file and a tree) is dominated by a test that
       implies both: the truth of ``<file>.tree`` / ``.templated_file``, or
-      ``num_violations(.., fixable=True ..) > 0`` (fixable violations are only
-      produced by rules, which only run on a tree).  A count of TMP/PRS errors
-      does *not* imply a tree (a skipped file has neither).
+      ``num_violations(.., fixable=True ..) > 0`` — directly, through a local, or
+      at every call site of a helper that contains the sink (fixable violations
+      are only produced by rules, which only run on a tree).  A count of TMP/PRS
+      errors does *not* imply a tree (a skipped file has neither).
 R04c  limit guards.  ``ParseContext.deeper_match`` increments the depth, compares
-      it with the configured maximum and raises a repo error before it yields;
-      ``increment_parse_nodes`` likewise for the node budget; the token count is
-      charged to the budget before matching (``Parser.parse`` seeds it, and the
-      pre-check in ``Linter._parse_tokens`` — when present — reports a
-      ``SQLParseError``); and every recursion cycle of the matching code passes
-      through ``with <ctx>.deeper_match(..)``: the call graph of all ``match``
-      implementations + the match algorithms, minus the calls made inside such
-      a ``with``, is acyclic.
+      it with the limit handed to the constructor and raises a repo error on
+      every path to its ``yield`` (branches taken only when the limit is switched
+      off excepted); ``increment_parse_nodes`` likewise for the node budget; the
+      token count is charged to the budget before matching (``Parser.parse``
+      seeds it and/or ``Linter._parse_tokens`` pre-checks it — and the pre-check
+      returns a ``SQLParseError`` violation); and every recursion cycle of the
+      matching code passes through ``with <ctx>.deeper_match(..)`` (also via a
+      local bound to that call): the call graph of all ``match`` implementations
+      + the match algorithms, minus the calls made inside such a ``with``, is
+      acyclic (``isinstance`` narrowing of the receiver is honoured).
 R04d  closed inventory of explicit ``raise`` statements of *builtin* exception
       types (ValueError, TypeError, RuntimeError, NotImplementedError, ...) in
       ``core/parser``, ``core/linter``, ``core/templaters`` that can reach an
-      entry point of the lint path without a handler: each is listed in
-      ``BUILTIN_RAISES`` keyed by module + type + message head, with its class
-      (internal invariant / config validation / API misuse) and the reason why it
-      is not an input-triggered crash.  A new one is reported.
-      ``assert`` statements are *not* inventoried (104 sites without a stable
-      identity; see DESIGN 2.5).
+      entry point without a covering handler (same flow engine; ``SQLBaseError``
+      is a ``ValueError``, so ``except ValueError`` covers both): each is listed in
+      ``BUILTIN_RAISES`` keyed by module + type + head of the message literal
+      (survives renames, extraction of helpers inside the module, reformatting),
+      with its class — ``invariant`` (not reachable with values the tree itself
+      produces), ``config`` (an invalid configuration value reported as a builtin
+      exception; three of them reproduced: they *are* tracebacks today), ``api``
+      (misuse by the calling program) — and the reason.  A new one is reported.
+      ``assert`` statements are *not* inventoried (104 sites, mostly without a
+      message, no stable identity), nor are implicit exceptions (IndexError ...).
 
-Accepted idioms are listed with each rule below.  Not decided: RecursionError /
-IndexError / AssertionError for arbitrary inputs, recursion outside the matching
-code (tree walks are bounded by the tree depth, which the match depth bounds),
-exceptions raised by third-party code (jinja2, dbt, sqlmesh) unless a handler in
-the tree translates them.
+Not decided: RecursionError / IndexError / AssertionError for arbitrary inputs;
+recursion outside the matching code (tree walks are bounded by the tree depth,
+which the match depth bounds); exceptions raised by third-party code (jinja2,
+dbt, sqlmesh) unless a handler in the tree translates them; plugin chains
+(notes only); value flows the engine does not model (closures stored in
+attributes, generators consumed away from where they are created) — counted in
+``R04a.unmodelled_value_flows_of_raising_functions`` and never alarmed on; a
+raise of a class passed to a decorator factory is only typed when every use of
+the factory passes the same class.
 """
 
 from __future__ import annotations
@@ -61,10 +86,9 @@ from __future__ import annotations
 import ast
 from typing import Dict, List, Optional, Set, Tuple
 
-from .. import errflow
 from ..cfg import atoms, cfg_of, origins
-from ..errflow import Absorb, ExcTypes, Flow, Graph, Site
-from ..index import AnalysisError, FuncNode, call_name, const, enclosing_class, enclosing_function, kwarg, last_attr, module_of, norm, parent, short, walk_local
+from ..errflow import Absorb, ExcTypes, Flow, Graph, Site, short_name
+from ..index import AnalysisError, FuncNode, call_name, const, enclosing_class, enclosing_function, kwarg, last_attr, module_of, norm, parent, walk_local
 from ..report import construct_of
 
 LINTER = "src/sqlfluff/core/linter/linter.py"
@@ -110,14 +134,7 @@ def _qual(fi) -> str:
     return f"{fi.relpath}::{getattr(fi.node, '_qualname', fi.node.name)}"
 
 
-def _short_fq(fq: str) -> str:
-    fq = fq.split("@")[0]
-    parts = fq.split(".")
-    # Class.method or function
-    for i, p in enumerate(parts):
-        if p[:1].isupper():
-            return ".".join(parts[i:])
-    return ".".join(parts[-2:]) if len(parts) > 1 else fq
+_short_fq = short_name
 
 
 def _msg_head(r: ast.Raise) -> str:
@@ -257,67 +274,6 @@ class World:
         return out
 
 
-def _flow_with_cuts(w: World, sites: List[Site]) -> Tuple[Flow, Set[Tuple[str, str, str]]]:
-    """Run the flow; surfaces matching CUTS drop the listed types."""
-    cuts = w.cuts()
-    used: Set[Tuple[str, str, str]] = set()
-    if cuts:
-        for fq in list(w.g.surf_to):
-            keep = []
-            for sf in w.g.surf_to[fq]:
-                k = (_short_fq(sf.caller.fq), _short_fq(fq))
-                if k in cuts:
-                    # split: a surface object per type would be heavy; instead mark it
-                    sf_types = cuts[k]
-                    keep.append((sf, sf_types))
-                else:
-                    keep.append((sf, None))
-            w.g.surf_to[fq] = [_Marked(sf, ts) if ts else sf for sf, ts in keep]
-    fl = _MarkedFlow(w.g, w.et, sites, used)
-    return fl, used
-
-
-class _Marked:
-    """A surface that is closed for some exception types."""
-
-    __slots__ = ("caller", "node", "target", "how", "closed")
-
-    def __init__(self, sf, closed):
-        self.caller, self.node, self.target, self.how = sf.caller, sf.node, sf.target, sf.how
-        self.closed = closed
-
-
-class _MarkedFlow(Flow):
-    def __init__(self, g, et, sites, used):
-        self._used = used
-        super().__init__(g, et, sites)
-
-    def _solve(self) -> None:
-        esc = self.escapes
-        for fq in self.g.cg.funcs:
-            esc.setdefault(fq, {})
-        for s in self.sites.values():
-            for f in [s.func] + self.g.clones.get(s.func.fq, []):
-                if s.key not in esc[f.fq] and self._fate(s, f, s.node):
-                    esc[f.fq][s.key] = None
-        work = [fq for fq, d in esc.items() if d]
-        while work:
-            fq = work.pop()
-            for sf in self.g.surf_to.get(fq, []):
-                cal = sf.caller
-                closed = getattr(sf, "closed", None)
-                for key in list(esc[fq]):
-                    if key in esc[cal.fq]:
-                        continue
-                    if closed and key[0] in closed:
-                        self._used.add((_short_fq(cal.fq), _short_fq(fq), key[0]))
-                        continue
-                    if self._fate(self.sites[key], cal, sf.node):
-                        esc[cal.fq][key] = sf
-                        if cal.fq not in work:
-                            work.append(cal.fq)
-
-
 def run(chk) -> None:
     chk.rule("R04a", "every raise of SQLParseError / SQLLexError / SQLTemplaterError / SQLFluffSkipFile reachable from a public entry point (Linter methods, api.simple, CLI commands) meets a converting handler on every call chain; log-only catch-alls count as degraded, not as handling")
     chk.rule("R04b", "every call of LintedFile.fix_string() is dominated by a test that implies a tree and a templated file")
@@ -384,7 +340,6 @@ def _classify(w: World, a: Absorb) -> Tuple[str, str]:
             return "translate", "raises " + "/".join(sorted(set(names)))
         return "foreign", "re-raises as " + "/".join(sorted({n or "?" for n in names}))
     # conversion: the caught object (or a repo error built here) goes into a list the function returns
-    cfg = cfg_of(f)
     carriers: Set[str] = set()
     if h.name:
         carriers.add(h.name)
@@ -393,6 +348,13 @@ def _classify(w: World, a: Absorb) -> Tuple[str, str]:
             for tg in n.targets:
                 if isinstance(tg, ast.Name):
                     carriers.add(tg.id)
+
+    for _ in range(3):
+        for n in _walk_body(h.body):
+            if isinstance(n, ast.Assign) and isinstance(n.value, ast.Name) and n.value.id in carriers:
+                for tg in n.targets:
+                    if isinstance(tg, ast.Name):
+                        carriers.add(tg.id)
 
     def is_carrier(e: ast.AST) -> bool:
         if isinstance(e, ast.Name) and e.id in carriers:
@@ -412,10 +374,24 @@ def _classify(w: World, a: Absorb) -> Tuple[str, str]:
                     direct = True
     if direct:
         return "convert", "returned inside a list literal"
-    for name in lists:
+    for n in _walk_body(h.body):
+        # handed, together with the list, to a helper: record(violations, err)
+        if isinstance(n, ast.Call) and not (isinstance(n.func, ast.Attribute) and n.func.attr in ("append", "add")):
+            args = list(n.args) + [k.value for k in n.keywords]
+            if any(is_carrier(x) for x in args):
+                for x in args:
+                    if isinstance(x, ast.Name) and x.id not in carriers:
+                        lists.add(x.id + "\0helper")
+    for name in sorted(lists):
+        via_helper = name.endswith("\0helper")
+        name = name.split("\0")[0]
+        if via_helper:
+            # only a local that is a list display / list() somewhere in the function
+            if not any(isinstance(d, (ast.Assign, ast.AnnAssign)) and isinstance(d.value, (ast.List, ast.ListComp)) and any(isinstance(t, ast.Name) and t.id == name for t in (d.targets if isinstance(d, ast.Assign) else [d.target])) for d in walk_local(f)):
+                continue
         for r in walk_local(f):
             if isinstance(r, (ast.Return, ast.Yield)) and r.value is not None and any(isinstance(x, ast.Name) and x.id == name for x in ast.walk(r.value)):
-                return "convert", f"appended to `{name}`, which the function returns"
+                return "convert", (f"handed with `{name}` to a helper; " if via_helper else "appended to ") + f"`{name}`, which the function returns"
     if w.et.is_broad(h.type):
         return "degraded", "log-only catch-all"
     return "swallowed", "handler drops the error"
@@ -485,7 +461,8 @@ def _r04a(chk, w: World) -> None:
     chk.floor("R04a.raise_sites.SQLLexError", 1)
     chk.floor("R04a.raise_sites.SQLTemplaterError", 6)
     chk.floor("R04a.raise_sites.SQLFluffSkipFile", 4)
-    fl, used = _flow_with_cuts(w, sites)
+    fl = Flow(w.g, w.et, sites, w.cuts())
+    used = fl.cut_used
     w.flow_a = fl
     # unknown flows that involve a function which can raise one of the four types
     may = {fq for fq, d in fl.escapes.items() if d}
@@ -522,7 +499,7 @@ def _r04a(chk, w: World) -> None:
             # reported as evidence, not as a violation
             n_plugin += 1
             chk.note(f"plugin chain without handler (not alarmed, no runnable witness): {s.etype} '{s.label}' raised in {_short_fq(s.func.fq)} escapes {', '.join(mins)} via {chain}")
-            chk.sample({"rule": "R04a", "plugin_chain": chain, "type": s.etype, "escapes": mins + others})
+            chk.sample({"rule": "R04a", "plugin_chain": chain, "type": s.etype, "escapes": mins + others}, limit=8)
             continue
         chk.fail(
             "R04a", s.node,
@@ -547,7 +524,8 @@ def _r04a(chk, w: World) -> None:
         for (t, kind), why in sorted(rec["kinds"].items()):
             sts = [s for s, k in rec["sites"] if s.etype == t and k == kind]
             label = f"{htxt} absorbs {t}"
-            chk.sample({"rule": "R04a", "handler": f"{h._module.relpath}:{h.lineno}", "in": _short_fq(f.fq), "type": t, "class": kind, "why": why, "raise_sites": len(sts)})
+            if kind != "skip":
+                chk.sample({"rule": "R04a", "handler": f"{h._module.relpath}:{h.lineno}", "in": _short_fq(f.fq), "type": t, "class": kind, "why": why, "raise_sites": len(sts)}, limit=8)
             if kind in ("convert", "translate", "verdict", "skip"):
                 chk.ok("R04a", construct_of(h), f"{label}: {kind} ({why})")
                 n_conv += kind in ("convert", "translate")
@@ -578,11 +556,15 @@ def _r04a(chk, w: World) -> None:
     chk.count("R04a.plugin_chains_unhandled", n_plugin)
     chk.count("R04a.absorbing_handlers", len(per_handler))
     chk.count("R04a.converting_handlers", n_conv)
-    chk.floor("R04a.absorbing_handlers", 5)
-    # each of the three violation-carrying types has a converting handler in the linter
+    # non-vacuity: each of the three violation-carrying types is seen to reach a converting
+    # handler of the linter.  When it is not, and nothing was reported for the type either,
+    # the flow itself was lost (an unresolved call on the way) — an analysis error, not a pass.
     for t in ("SQLParseError", "SQLLexError", "SQLTemplaterError"):
         conv = [rec for rec in per_handler.values() if any(tt == t and k == "convert" for (tt, k) in rec["kinds"]) and rec["f"].relpath == LINTER]
-        chk.require(bool(conv), "R04a", w.repo.cls(LINTER, "Linter"), f"no handler in the linter converts {t} into a violation any more", detail=f"a handler of Linter converts {t}", construct=f"{LINTER}::Linter")
+        if conv:
+            chk.ok("R04a", f"{LINTER}::Linter", f"a handler of Linter converts {t}")
+        elif not any(f.rule == "R04a" and t in f.detail for f in chk.findings):
+            raise AnalysisError(f"R04a: no raise of {t} is seen to reach a handler of the linter and nothing is reported for it: the exception flow was lost (unresolved call between parser/templater and linter?)")
 
 
 # ---------------------------------------------------------------------------
@@ -601,12 +583,22 @@ def _implies_tree(cfg, e: ast.expr, pol: bool, at, depth: int = 0) -> Optional[s
         if isinstance(op, ast.Is) and const(r) is None and not pol and isinstance(l, ast.Attribute) and l.attr in ("tree", "templated_file"):
             return f"{l.attr} is not None"
         c = None
-        if isinstance(l, ast.Call):
-            c, k, o = l, const(r), op
-        elif isinstance(r, ast.Call):
-            c, k = r, const(l)
+
+        def as_call(x):
+            if isinstance(x, ast.Call):
+                return x
+            if isinstance(x, ast.Name):
+                os_ = origins(cfg, x, at)
+                if os_ and len(os_) == 1 and os_[0].kind == "expr" and not os_[0].path and isinstance(os_[0].expr, ast.Call):
+                    return os_[0].expr
+            return None
+
+        if as_call(l) is not None and const(r) is not None:
+            c, k, o = as_call(l), const(r), op
+        elif as_call(r) is not None and const(l) is not None:
+            c, k = as_call(r), const(l)
             o = {ast.Lt: ast.Gt, ast.LtE: ast.GtE, ast.Gt: ast.Lt, ast.GtE: ast.LtE}.get(type(op), type(op))()
-        if c is not None and last_attr(c) == "num_violations" and const(kwarg(c, "fixable")) is True and isinstance(k, int):
+        if c is not None and last_attr(c) == "num_violations" and const(kwarg(c, "fixable")) is True and isinstance(k, int) and not isinstance(k, bool):
             positive = (isinstance(o, ast.Gt) and k >= 0) or (isinstance(o, ast.GtE) and k >= 1) or (isinstance(o, ast.NotEq) and k == 0)
             zero = (isinstance(o, ast.Eq) and k == 0) or (isinstance(o, ast.LtE) and k == 0) or (isinstance(o, ast.Lt) and k == 1)
             if (positive and pol) or (zero and not pol):
@@ -647,7 +639,7 @@ def _gated(f: ast.AST, call: ast.Call) -> Optional[str]:
 
 def _r04b(chk, w: World) -> None:
     repo = w.repo
-    LF = repo.cls(LINTED_FILE, "LintedFile")
+    repo.cls(LINTED_FILE, "LintedFile")
     sink = repo.fn(LINTED_FILE, "LintedFile.fix_string")
     asserts = [s for s in sink.body if isinstance(s, ast.Assert)]
     needs = {a.test.attr for a in asserts if isinstance(a.test, ast.Attribute)}
@@ -673,7 +665,7 @@ def _r04b(chk, w: World) -> None:
                     if sfs and all(isinstance(s.node, ast.Call) and _gated(s.caller.node, s.node) for s in sfs):
                         why = _gated(sfs[0].caller.node, sfs[0].node)
                         where = f"all {len(sfs)} call sites of the helper"
-                chk.sample({"rule": "R04b", "site": f"{m.relpath}:{c.lineno}", "in": q, "gate": why, "where": where})
+                chk.sample({"rule": "R04b", "site": f"{m.relpath}:{c.lineno}", "in": q, "gate": why, "where": where}, limit=12)
                 chk.require(
                     why is not None, "R04b", c,
                     f"{q} calls fix_string() without a dominating test that the file has a tree and a templated file "
@@ -681,7 +673,7 @@ def _r04b(chk, w: World) -> None:
                     detail="fix_string() dominated by a tree-implying test",
                 )
     chk.count("R04b.fix_string_call_sites", n)
-    chk.floor("R04b.fix_string_call_sites", 3)
+    chk.floor("R04b.fix_string_call_sites", 2)
 
 
 # ---------------------------------------------------------------------------
@@ -736,8 +728,28 @@ def _limit_guard(chk, w: World, fn: ast.AST, what: str, before: str) -> None:
         goals = [cfg.stmt_of(y) for y in walk_local(fn) if isinstance(y, ast.Yield)]
     else:
         goals = [cfg.exit]
-    chk.require(bool(goals) and all(not cfg.paths_avoiding(cfg.entry, gl, lambda n: n is s) for gl in goals), "R04c", s,
+    off = _limit_disabled_branches(cfg, b)
+    chk.require(bool(goals) and all(not cfg.paths_avoiding(cfg.entry, gl, lambda n: n is s or n in off) for gl in goals), "R04c", s,
                 f"{what}: the limit comparison can be bypassed on a path to the {before}", detail=f"{what}: comparison on every path to the {before}", construct=cons)
+
+
+def _limit_disabled_branches(cfg, limit_attr: str) -> List[object]:
+    """Branch nodes taken exactly when the limit is switched off (``self.<limit> <= 0`` / falsy)."""
+    from ..cfg import Branch
+
+    out = []
+    for n in cfg.nodes:
+        if not (isinstance(n, Branch) and isinstance(n.stmt, ast.If)):
+            continue
+        ats = atoms(n.stmt.test, n.polarity)
+        for e, pol in ats:
+            if _self_attr(e) == limit_attr and not pol and len(ats) == 1:
+                out.append(n)
+            elif isinstance(e, ast.Compare) and len(e.ops) == 1 and _self_attr(e.left) == limit_attr and const(e.comparators[0]) == 0 and len(ats) == 1:
+                op = e.ops[0]
+                if (isinstance(op, ast.Gt) and not pol) or (isinstance(op, (ast.LtE, ast.Eq)) and pol):
+                    out.append(n)
+    return out
 
 
 def _r04c(chk, w: World) -> None:
@@ -848,7 +860,6 @@ def _r_nodes(w: World) -> Dict[str, object]:
 
 
 def _recursion(chk, w: World) -> None:
-    cg = w.cg
     nodes = _r_nodes(w)
     chk.count("R04c.matching_functions", len(nodes))
     chk.floor("R04c.matching_functions", 18)
@@ -876,7 +887,6 @@ def _recursion(chk, w: World) -> None:
                 witness.setdefault((fq, t.fq), call)
     chk.count("R04c.calls_inside_deeper_match", n_guarded)
     chk.count("R04c.modules_with_guarded_calls", len(guarded_mods))
-    chk.floor("R04c.calls_inside_deeper_match", 12)
     # cycles in the unguarded remainder (Tarjan)
     index: Dict[str, int] = {}
     low: Dict[str, int] = {}
@@ -925,7 +935,11 @@ def _recursion(chk, w: World) -> None:
             strong(v)
     bad = [c for c in sccs if len(c) > 1 or (c[0] in plain[c[0]])]
     chk.count("R04c.unguarded_call_edges", sum(len(v) for v in plain.values()))
+    chk.sample({"rule": "R04c", "matching_functions": len(nodes), "calls_inside_deeper_match": n_guarded, "unguarded_edges": sum(len(v) for v in plain.values()),
+                "cyclic_components_without_guard": len(bad)}, limit=14)
     if not bad:
+        # anchor floor (only when nothing is reported: a removed guard is a violation, not an analysis error)
+        chk.floor("R04c.calls_inside_deeper_match", 12)
         chk.ok("R04c", ALGOS, f"the matching call graph ({len(nodes)} functions) minus the {n_guarded} calls inside `with deeper_match` is acyclic")
     for comp in bad:
         comp = sorted(comp)
@@ -1039,6 +1053,7 @@ def _r04d(chk, w: World) -> None:
         if k in BUILTIN_RAISES:
             by_class[BUILTIN_RAISES[k][0]] = by_class.get(BUILTIN_RAISES[k][0], 0) + 1
     chk.extra["R04d_classes"] = by_class
+    chk.sample({"rule": "R04d", "explicit_builtin_raises": len(sites), "reach_an_entry_unhandled": len(seen), "table_entries_by_class": by_class}, limit=16)
 
 
 from ..selftest import Variant  # noqa: E402
@@ -1137,6 +1152,18 @@ VARIANTS: List[Variant] = [
             "        with parse_context.deeper_match(name=\"Bracket\"):\n",
             "        deeper = parse_context.deeper_match(name=\"Bracket\")\n        with deeper:\n",
             "QUIET", None, "context manager bound to a local before the with"),
+    Variant("q-depth-test-nested-ifs", CONTEXT,
+            "        if self.max_parse_depth > 0 and self.match_depth > self.max_parse_depth:\n            raise SQLParseError(\n                f\"Maximum parse depth exceeded (limit {self.max_parse_depth}). \"\n                \"This may indicate deeply nested SQL or a malicious input.\"\n            )\n",
+            "        if self.max_parse_depth > 0:\n            if self.match_depth > self.max_parse_depth:\n                raise SQLParseError(\n                    f\"Maximum parse depth exceeded (limit {self.max_parse_depth}). \"\n                    \"This may indicate deeply nested SQL or a malicious input.\"\n                )\n",
+            "QUIET", None, "conjunction split into nested ifs"),
+    Variant("q-record-through-helper", LINTER,
+            "            templater_violations.append(templater_err)\n",
+            "            self._note_violation(templater_violations, templater_err)\n",
+            "QUIET", None, "conversion handed to a helper together with the returned list"),
+    Variant("q-fixable-count-in-local", COMMANDS,
+            "    if result.num_violations(types=SQLLintError, fixable=True) > 0:\n        stdout =",
+            "    n_fixable = result.num_violations(types=SQLLintError, fixable=True)\n    if n_fixable > 0:\n        stdout =",
+            "QUIET", None, "gate count bound to a local first"),
     Variant("q-api-gate-early-return", SIMPLE,
             "    if should_fix and result.num_violations(types=SQLLintError, fixable=True) > 0:\n        sql = result.paths[0].files[0].fix_string()[0]\n    return sql\n",
             "    if not should_fix:\n        return sql\n    if result.num_violations(types=SQLLintError, fixable=True) == 0:\n        return sql\n    return result.paths[0].files[0].fix_string()[0]\n",
